@@ -91,6 +91,68 @@ def _flat_bytes(fi, expr, at):
     return parts
 
 
+def _flat_text(fi, expr, at):
+    """a str-building expression as the list of the bytes parts it denotes once encoded as utf-8: B.decode('utf-8') is the parts of
+    B; 'a%sb%s' % (x, y), a + b and f-strings are the concatenation of their pieces (text constants become bytes constants).
+    None when the expression is not of that shape."""
+    from .common import sym_expr
+
+    def dec(x):
+        if isinstance(x, ast.Name):
+            x2 = sym_expr(fi, x, at, allow_calls=("base64.b64encode",))
+            if isinstance(x2, ast.Name):
+                from .common import single_def_value
+                v = single_def_value(fi, x.id, x)
+                x = v if v is not None else x
+            else:
+                x = x2
+        if isinstance(x, ast.Call) and isinstance(x.func, ast.Attribute) and x.func.attr == "decode" and [norm(a) for a in x.args] in (["'utf-8'"], ["'ascii'"], []) and not x.keywords:
+            return _flat_bytes(fi, x.func.value, at)
+        if isinstance(x, ast.Constant) and isinstance(x.value, str):
+            return [x.value.encode("utf-8")]
+        if isinstance(x, ast.BinOp) and isinstance(x.op, ast.Add):
+            a, b = dec(x.left), dec(x.right)
+            return None if a is None or b is None else a + b
+        if isinstance(x, ast.BinOp) and isinstance(x.op, ast.Mod) and isinstance(x.left, ast.Constant) and isinstance(x.left.value, str):
+            args = list(x.right.elts) if isinstance(x.right, ast.Tuple) else [x.right]
+            pieces = x.left.value.split("%s")
+            if len(pieces) != len(args) + 1 or "%" in "".join(pieces):
+                return None
+            out = [pieces[0].encode("utf-8")]
+            for a_, lit in zip(args, pieces[1:]):
+                d = dec(a_)
+                if d is None:
+                    return None
+                out += d + [lit.encode("utf-8")]
+            return out
+        if isinstance(x, ast.JoinedStr):
+            out = []
+            for v in x.values:
+                if isinstance(v, ast.Constant):
+                    out.append(str(v.value).encode("utf-8"))
+                elif isinstance(v, ast.FormattedValue) and v.conversion == -1 and v.format_spec is None:
+                    d = dec(v.value)
+                    if d is None:
+                        return None
+                    out += d
+                else:
+                    return None
+            return out
+        return None
+    parts = dec(expr)
+    if parts is None:
+        return None
+    merged = []
+    for p_ in parts:
+        if isinstance(p_, bytes) and not p_:
+            continue
+        if isinstance(p_, bytes) and merged and isinstance(merged[-1], bytes):
+            merged[-1] += p_
+        else:
+            merged.append(p_)
+    return merged
+
+
 def r1(ctx):
     vp = ctx.fn(VP)
     cfg = cfg_of(vp)
@@ -230,10 +292,7 @@ def r3(ctx):
     hrets = [n for n in walk_own(hp.node) if isinstance(n, ast.Return) and n.value is not None]
     flat = None
     if len(hrets) == 1:
-        rv = hrets[0].value
-        inner = rv.func.value if isinstance(rv, ast.Call) and isinstance(rv.func, ast.Attribute) and rv.func.attr == "decode" and [norm(a) for a in rv.args] == ["'utf-8'"] else None
-        if inner is not None:
-            flat = _flat_bytes(hp, inner, hcfg.node_of(hrets[0]))
+        flat = _flat_text(hp, hrets[0].value, hcfg.node_of(hrets[0]))
     want_flat = [b"scrypt:1:", "base64.b64encode(params)", b":", "base64.b64encode(salt + out)"]
     okh = flat is not None and flat[:3] == want_flat[:3]
     ctx.check(okh, "C19.R3", hp, "header = b'scrypt:1:' + b64(params) + b':'", witness=[repr(x) for x in (flat or [])])
@@ -374,11 +433,25 @@ def r6(ctx):
     # which the fact holds; with that edge removed the verification must be unreachable, and the other edge must end in ValueError
     V = cfg.node_of(ver[0])
     facts = {"digest length >= 1": {}, "len(embedded digest) == digest length": {}, "len(salt) == salt length": {}}
+    # when the embedded digest is the tail of the decoded data after the salt (expected = data[salt_length:]), the total
+    # len(data) == salt_length + length says the same as len(expected) == length
+    total_eq, total_ne = (), ()
+    edef = [n for n in walk_own(vp.node) if isinstance(n, ast.Assign) and norm(n.targets[0]) == "expected"]
+    if len(edef) == 1 and isinstance(edef[0].value, ast.Subscript) and isinstance(edef[0].value.slice, ast.Slice) and edef[0].value.slice.upper is None \
+            and edef[0].value.slice.step is None and isinstance(edef[0].value.value, ast.Name) and norm(edef[0].value.slice.lower) == "salt_length":
+        dv = edef[0].value.value.id
+        sums = ("salt_length + length", "length + salt_length")
+        total_eq = tuple("len(%s) == %s" % (dv, x) for x in sums) + tuple("%s == len(%s)" % (x, dv) for x in sums)
+        total_ne = tuple("len(%s) != %s" % (dv, x) for x in sums) + tuple("%s != len(%s)" % (x, dv) for x in sums)
     for n in cfg.nodes:
         if n.kind != "test" or n.ast is None:
             continue
         t = norm(n.ast)
-        if t in ("length < 1", "length <= 0", "length == 0", "len(expected) < 1", "len(expected) == 0"):
+        if t in total_ne:
+            facts["len(embedded digest) == digest length"][n.id] = "F"
+        elif t in total_eq:
+            facts["len(embedded digest) == digest length"][n.id] = "T"
+        elif t in ("length < 1", "length <= 0", "length == 0", "len(expected) < 1", "len(expected) == 0"):
             facts["digest length >= 1"][n.id] = "F"
         elif t in ("length >= 1", "length > 0", "length", "expected"):
             facts["digest length >= 1"][n.id] = "T"
